@@ -1,6 +1,8 @@
 #!/bin/bash
 # Mutation regression: applies every seeded change under /verif/seeded to /repo in turn, runs the checks listed in its
 # meta.json at the listed tier, restores /repo, and prints one line per seed. Long (about an hour for all seeds).
+# NOTE: the runs rewrite /verif/evidence/<id>.json with the verdicts on the PATCHED tree; restore the committed evidence
+# afterwards (git -C /verif checkout -- evidence) or re-run the quick tier. seeded_regression_lab.sh does not have this effect.
 # usage: seeded_regression.sh [seed-id ...]        (default: all)
 cd /verif || exit 2
 IDS="$@"; [ -z "$IDS" ] && IDS=$(ls seeded)
